@@ -171,7 +171,8 @@ Fixpoint csi_bins_loop (version dummy : Z) (s : list Z) (i len : Z) (fuel : nat)
 Definition csi_read_bins (version binLimit : Z) (s : list Z) : outcome (list Z) :=
   a <- rd_i32 s ;; let '(nBins, s) := a in
   if nBins =? 0 then Ok s else
-  if binLimit <? u32 nBins then Err 1 else
+  (* if uint32(nBins) > binLimit+1: every bin plus the statistics pseudo-bin *)
+  if u32 (binLimit + 1) <? u32 nBins then Err 1 else
   chk (make_ok nBins) (csi_bins_loop version (u32 (binLimit + 1)) s 0 nBins (S (length s))).
 
 Fixpoint csi_indices_loop (version binLimit : Z) (s : list Z) (i n : Z) (fuel : nat) : outcome (list Z) :=
